@@ -54,7 +54,18 @@ Definition fdtab := list (N * fdent).
 
 Definition stack := list (str * nat).      (* innermost directory first *)
 
-Record proc := mkProc { p_fds : fdtab; p_cwd : stack; p_umask : N }.
+(* signals: the five the sequences use (SIGUSR1, SIGUSR2, SIGTERM, SIGINT,
+   SIGHUP) are numbered 0..4 *)
+Inductive disp := DDefault | DIgnore | DCatch.
+
+Record sigstate := mkSig {
+  g_disp : list (N * disp);      (* dispositions that are not the default *)
+  g_mask : list N;               (* blocked *)
+  g_pend : list N;               (* pending (blocked when raised) *)
+  g_caught : list N              (* caught and not yet collected *)
+}.
+
+Record proc := mkProc { p_fds : fdtab; p_cwd : stack; p_umask : N; p_sig : sigstate }.
 
 Record kstate := mkK {
   k_ino : list inode;
@@ -89,6 +100,11 @@ Inductive op :=
 | OGetfd (fd : N)
 | OSetfd (fd : N) (cx : bool)
 | OAccess (fd : N)
+| OSigaction (sig : N) (d : disp)
+| OGetSigaction (sig : N)
+| ORaise (sig : N)
+| OCaught
+| OSigmask (how : N) (sigs : list N)      (* 0 = block, 1 = unblock, 2 = set *)
 | OFork                       (* the child becomes the running process *)
 | OExit.                      (* the running child exits; its parent resumes *)
 
@@ -106,8 +122,11 @@ Inductive res :=
 | RFlag (b : bool)
 | RAcc (a : access)
 | RErr (e : errno)
+| RDisp (d : disp)
+| RSigs (l : list N)          (* a set of signals, ascending *)
 | ROut                        (* model only: outside the compared domain *)
-| RHang.                      (* harness only: the call did not return *)
+| RHang                       (* harness only: the call did not return *)
+| RPanic.                     (* harness only: the implementation panicked in this call *)
 
 (* ---- descriptor tables ------------------------------------------------------ *)
 
@@ -251,7 +270,9 @@ Definition pipe_cap : N := 1024.    (* the smaller of the two pipe capacities *)
 Definition set_cur (s : kstate) (p : proc) : kstate :=
   mkK (k_ino s) (k_ofd s) p (k_susp s).
 Definition set_fds (s : kstate) (t : fdtab) : kstate :=
-  set_cur s (mkProc t (p_cwd (k_cur s)) (p_umask (k_cur s))).
+  set_cur s (mkProc t (p_cwd (k_cur s)) (p_umask (k_cur s)) (p_sig (k_cur s))).
+Definition set_sig (s : kstate) (g : sigstate) : kstate :=
+  set_cur s (mkProc (p_fds (k_cur s)) (p_cwd (k_cur s)) (p_umask (k_cur s)) g).
 Definition set_ino (s : kstate) (l : list inode) : kstate :=
   mkK l (k_ofd s) (k_cur s) (k_susp s).
 Definition set_ofd (s : kstate) (l : list ofd) : kstate :=
@@ -496,12 +517,12 @@ Definition k_stat (s : kstate) (p : str) : kstate * res :=
 
 Definition k_umask (s : kstate) (m : N) : kstate * res :=
   if N.ltb 511 m then (s, ROut) else
-  (set_cur s (mkProc (fds s) (p_cwd (k_cur s)) m), RMode (p_umask (k_cur s))).
+  (set_cur s (mkProc (fds s) (p_cwd (k_cur s)) m (p_sig (k_cur s))), RMode (p_umask (k_cur s))).
 
 Definition k_chdir (s : kstate) (p : str) : kstate * res :=
   match resolve (k_ino s) (p_cwd (k_cur s)) p with
   | WOk st => if is_dir (k_ino s) (top st)
-              then (set_cur s (mkProc (fds s) st (p_umask (k_cur s))), RUnit)
+              then (set_cur s (mkProc (fds s) st (p_umask (k_cur s)) (p_sig (k_cur s))), RUnit)
               else (s, RErr ENOTDIR)
   | WErr e => (s, RErr e)
   | WOut => (s, ROut)
@@ -548,11 +569,115 @@ Definition k_readdir (s : kstate) (p : str) : kstate * res :=
   | WOut => (s, ROut)
   end.
 
+(* ---- signals ------------------------------------------------------------------------------------- *)
+
+Definition nsig : N := 5.
+
+Fixpoint mem_n (x : N) (l : list N) : bool :=
+  match l with [] => false | y :: l' => N.eqb x y || mem_n x l' end.
+
+Fixpoint remove_n (x : N) (l : list N) : list N :=
+  match l with [] => [] | y :: l' => if N.eqb x y then remove_n x l' else y :: remove_n x l' end.
+
+(* insert into an ascending list without duplicates *)
+Fixpoint insert_n (x : N) (l : list N) : list N :=
+  match l with
+  | [] => [x]
+  | y :: l' => if N.ltb x y then x :: l else if N.eqb x y then l else y :: insert_n x l'
+  end.
+
+Definition norm_set (l : list N) : list N := fold_right insert_n [] l.
+
+Fixpoint get_disp (l : list (N * disp)) (sig : N) : disp :=
+  match l with
+  | [] => DDefault
+  | (k, d) :: l' => if N.eqb k sig then d else get_disp l' sig
+  end.
+
+Definition set_disp (l : list (N * disp)) (sig : N) (d : disp) : list (N * disp) :=
+  (sig, d) :: filter (fun kd => negb (N.eqb (fst kd) sig)) l.
+
+(* deliver one signal to the running process: None = the default action
+   (termination) would be taken, which the sequences never do *)
+Definition deliver (g : sigstate) (sig : N) : option sigstate :=
+  match get_disp (g_disp g) sig with
+  | DIgnore => Some g
+  | DCatch => Some (mkSig (g_disp g) (g_mask g) (g_pend g) (insert_n sig (g_caught g)))
+  | DDefault => None
+  end.
+
+(* deliver the pending signals that are no longer blocked, lowest first *)
+Fixpoint deliver_pending (g : sigstate) (cands : list N) : option sigstate :=
+  match cands with
+  | [] => Some g
+  | sig :: cands' =>
+      if mem_n sig (g_pend g) && negb (mem_n sig (g_mask g)) then
+        match deliver (mkSig (g_disp g) (g_mask g) (remove_n sig (g_pend g)) (g_caught g)) sig with
+        | Some g' => deliver_pending g' cands'
+        | None => None
+        end
+      else deliver_pending g cands'
+  end.
+
+Definition all_sigs : list N := [0; 1; 2; 3; 4]%N.
+
+Definition sigs_ok (l : list N) : bool := forallb (fun x => N.ltb x nsig) l.
+
+Definition k_sigaction (s : kstate) (sig : N) (d : disp) : kstate * res :=
+  if negb (N.ltb sig nsig) then (s, ROut) else
+  let g := p_sig (k_cur s) in
+  (* POSIX: setting the action to "ignore" discards a pending instance *)
+  let pend := match d with DIgnore => remove_n sig (g_pend g) | _ => g_pend g end in
+  (set_sig s (mkSig (set_disp (g_disp g) sig d) (g_mask g) pend (g_caught g)),
+   RDisp (get_disp (g_disp g) sig)).
+
+Definition k_getsigaction (s : kstate) (sig : N) : kstate * res :=
+  if negb (N.ltb sig nsig) then (s, ROut) else
+  (s, RDisp (get_disp (g_disp (p_sig (k_cur s))) sig)).
+
+Definition k_raise (s : kstate) (sig : N) : kstate * res :=
+  if negb (N.ltb sig nsig) then (s, ROut) else
+  let g := p_sig (k_cur s) in
+  if mem_n sig (g_mask g) then
+    (* blocked: stays pending (once), unless it is ignored *)
+    match get_disp (g_disp g) sig with
+    | DIgnore => (s, RUnit)
+    | _ => (set_sig s (mkSig (g_disp g) (g_mask g) (insert_n sig (g_pend g)) (g_caught g)), RUnit)
+    end
+  else match deliver g sig with
+       | Some g' => (set_sig s g', RUnit)
+       | None => (s, ROut)
+       end.
+
+Definition k_caught (s : kstate) : kstate * res :=
+  let g := p_sig (k_cur s) in
+  (set_sig s (mkSig (g_disp g) (g_mask g) (g_pend g) []), RSigs (g_caught g)).
+
+Definition k_sigmask (s : kstate) (how : N) (sigs : list N) : kstate * res :=
+  if negb (sigs_ok sigs) || N.ltb 2 how then (s, ROut) else
+  let g := p_sig (k_cur s) in
+  let new :=
+    if N.eqb how 0 then fold_right insert_n (g_mask g) sigs
+    else if N.eqb how 1 then fold_right remove_n (g_mask g) sigs
+    else norm_set sigs in
+  match deliver_pending (mkSig (g_disp g) new (g_pend g) (g_caught g)) all_sigs with
+  | Some g' => (set_sig s g', RSigs (g_mask g))
+  | None => (s, ROut)
+  end.
+
 (* ---- fork / exit (subshell schedule) ------------------------------------------------------------ *)
 
 Definition k_fork (s : kstate) : kstate * res :=
-  (* the child is a copy of the parent and shares its open file descriptions *)
-  (mkK (k_ino s) (k_ofd s) (k_cur s) (k_cur s :: k_susp s), RUnit).
+  (* the child is a copy of the parent and shares its open file descriptions;
+     it inherits dispositions and the mask, and has no pending signals.
+     (Caught-but-uncollected signals are an implementation artefact on both
+     sides: the sequences collect them before forking.) *)
+  let p := k_cur s in
+  let g := p_sig p in
+  (mkK (k_ino s) (k_ofd s)
+       (mkProc (p_fds p) (p_cwd p) (p_umask p) (mkSig (g_disp g) (g_mask g) [] []))
+       (p :: k_susp s),
+   match g_caught g with [] => RUnit | _ => ROut end).
 
 Definition k_exit (s : kstate) : kstate * res :=
   match k_susp s with
@@ -581,6 +706,11 @@ Definition step (s : kstate) (o : op) : kstate * res :=
   | OGetfd fd => k_getfd s fd
   | OSetfd fd cx => k_setfd s fd cx
   | OAccess fd => k_access s fd
+  | OSigaction sig d => k_sigaction s sig d
+  | OGetSigaction sig => k_getsigaction s sig
+  | ORaise sig => k_raise s sig
+  | OCaught => k_caught s
+  | OSigmask how sigs => k_sigmask s how sigs
   | OFork => k_fork s
   | OExit => k_exit s
   end.
@@ -637,7 +767,8 @@ Definition init_state (tree : list init_entry) (um : N) : kstate :=
   let ino := fold_left add_init tree ino0 in
   let std i := mkOfd i 0 true true true in
   mkK ino [std 1%nat; std 2%nat; std 3%nat]
-      (mkProc [(0%N, mkEnt 0 false); (1%N, mkEnt 1 false); (2%N, mkEnt 2 false)] [] um) [].
+      (mkProc [(0%N, mkEnt 0 false); (1%N, mkEnt 1 false); (2%N, mkEnt 2 false)] [] um
+              (mkSig [] [] [] [])) [].
 
 (* final tree below the scratch root: (path, kind, permission bits, bytes),
    depth first, entries of a directory in byte order of their names *)
